@@ -59,7 +59,67 @@ def fam_txn(ctx):
     ctx.cov.setdefault("deviation_switches", {}).update(dict(ctx.par(one, sw, workers=4)))
 
 
-FAMILIES = {"txn": fam_txn}
+CRASH_SWITCHES = ["BugDeleteInputsFirst", "BugNoSyncTable", "BugCreateInPlace", "BugWalSkipped", "BugTornTailFatal",
+                  "BugPerEntryWal", "BugAckBeforeSync", "BugDelWalFirst", "BugCloseFlushesFirst"]
+
+
+def crash_cfg(keys=2, maxtxn=3, mem=1, queue=1, l0=1, crashes=1, closes=1, torn=False, on=(), invs=None):
+    kw = dict(KEYS=", ".join(map(str, range(1, keys + 1))), MAXTXN=maxtxn, MEM=mem, QUEUE=queue, L0=l0,
+              CRASHES=crashes, CLOSES=closes, TORN=T if torn else F)
+    for s in CRASH_SWITCHES:
+        kw[s] = T if s in on else F
+    if invs is None:
+        invs = ["OpenOk", "Durable", "Fresh"] + ([] if torn else ["Atomic"]) + (["AckedSynced"] if torn else [])
+    kw["INVS"] = " ".join(invs)
+    return tlc.fill("MC_Crash.cfg.tmpl", **kw)
+
+
+# switch -> (needs torn tails?, extra config)
+CRASH_SELFTEST = {
+    "BugDeleteInputsFirst": (False, dict(l0=1, maxtxn=3)),
+    "BugCreateInPlace": (False, dict()),
+    "BugWalSkipped": (False, dict()),
+    "BugPerEntryWal": (False, dict()),
+    "BugDelWalFirst": (False, dict()),
+    "BugCloseFlushesFirst": (False, dict(queue=2, mem=2)),
+    "BugNoSyncTable": (True, dict()),
+    "BugTornTailFatal": (True, dict()),
+    "BugAckBeforeSync": (True, dict()),
+}
+
+
+def fam_crash(ctx, torn=False):
+    """Crash.tla: crash at every file-system step of committer, flusher, compaction, Close and
+    recovery; recovery as steps; invariants OpenOk, Durable, Fresh, Atomic (AckedSynced with torn tails)."""
+    if ctx.quick:
+        points = [dict(keys=2, maxtxn=3, mem=1, queue=1, l0=1, crashes=1, torn=torn),
+                  dict(keys=2, maxtxn=3, mem=2, queue=2, l0=1, crashes=1, torn=torn)]
+    else:
+        points = [dict(keys=2, maxtxn=3, mem=1, queue=1, l0=1, crashes=2, torn=torn),
+                  dict(keys=2, maxtxn=3, mem=2, queue=2, l0=1, crashes=1, torn=torn),
+                  dict(keys=2, maxtxn=4, mem=2, queue=0, l0=1, crashes=1, torn=torn),
+                  dict(keys=2, maxtxn=4, mem=1, queue=2, l0=2, crashes=1, torn=torn)]
+    for pt in points:
+        r = ctx.model_check("Crash", crash_cfg(**pt), timeout=3000)
+        expect_ok(ctx, r, "Crash %s" % (pt,))
+    ctx.cov.setdefault("model_bounds", {})["Crash"] = points
+    sws = [s for s, (t, _) in CRASH_SELFTEST.items() if t == torn or (torn and not ctx.quick)]
+    if ctx.quick:
+        sws = sws[:3]
+
+    def one(s):
+        t, extra = CRASH_SELFTEST[s]
+        kw = dict(keys=2, maxtxn=3, mem=1, queue=1, l0=1, crashes=1, torn=t, on=(s,))
+        kw.update(extra)
+        rr = ctx.model_check("Crash", crash_cfg(**kw), timeout=900, expect_violation=True, workers=4)
+        expect_violation(ctx, rr, s)
+        m = re.findall(r"Invariant (\w+) is violated", rr["out"])
+        return s, (m[0] if m else "violated")
+
+    ctx.cov.setdefault("deviation_switches", {}).update(dict(ctx.par(one, sws, workers=4)))
+
+
+FAMILIES = {"txn": fam_txn, "crash": fam_crash, "crash_torn": lambda ctx: fam_crash(ctx, torn=True)}
 
 
 def run_family(ctx, name):
